@@ -8,10 +8,10 @@ def handle (fn : String) (args : List Json) : String :=
     | [a0] => (do let x0 ← Wire.decStr a0; pure (Wire.respondWith Wire.encStr (Gen.sg_uen._validate_business x0)) : Option String).getD "badargs"
     | _ => "badargs"
   | "_validate_local_company" => match args with
-    | [t, a0] => (do let today ← Wire.decDate t; let x0 ← Wire.decStr a0; pure (Wire.respondWith Wire.encStr (Gen.sg_uen._validate_local_company today x0)) : Option String).getD "badargs"
+    | [t, a0] => (do let today__ ← Wire.decDate t; let x0 ← Wire.decStr a0; pure (Wire.respondWith Wire.encStr (Gen.sg_uen._validate_local_company today__ x0)) : Option String).getD "badargs"
     | _ => "badargs"
   | "_validate_other" => match args with
-    | [t, a0] => (do let today ← Wire.decDate t; let x0 ← Wire.decStr a0; pure (Wire.respondWith Wire.encStr (Gen.sg_uen._validate_other today x0)) : Option String).getD "badargs"
+    | [t, a0] => (do let today__ ← Wire.decDate t; let x0 ← Wire.decStr a0; pure (Wire.respondWith Wire.encStr (Gen.sg_uen._validate_other today__ x0)) : Option String).getD "badargs"
     | _ => "badargs"
   | "calc_business_check_digit" => match args with
     | [a0] => (do let x0 ← Wire.decStr a0; pure (Wire.respondWith Wire.encStr (Gen.sg_uen.calc_business_check_digit x0)) : Option String).getD "badargs"
@@ -29,10 +29,10 @@ def handle (fn : String) (args : List Json) : String :=
     | [a0] => (do let x0 ← Wire.decStr a0; pure (Wire.respondWith Wire.encStr (Gen.sg_uen.format x0)) : Option String).getD "badargs"
     | _ => "badargs"
   | "is_valid" => match args with
-    | [t, a0] => (do let today ← Wire.decDate t; let x0 ← Wire.decStr a0; pure (Wire.respondWith Wire.encBool (Gen.sg_uen.is_valid today x0)) : Option String).getD "badargs"
+    | [t, a0] => (do let today__ ← Wire.decDate t; let x0 ← Wire.decStr a0; pure (Wire.respondWith Wire.encBool (Gen.sg_uen.is_valid today__ x0)) : Option String).getD "badargs"
     | _ => "badargs"
   | "validate" => match args with
-    | [t, a0] => (do let today ← Wire.decDate t; let x0 ← Wire.decStr a0; pure (Wire.respondWith Wire.encStr (Gen.sg_uen.validate today x0)) : Option String).getD "badargs"
+    | [t, a0] => (do let today__ ← Wire.decDate t; let x0 ← Wire.decStr a0; pure (Wire.respondWith Wire.encStr (Gen.sg_uen.validate today__ x0)) : Option String).getD "badargs"
     | _ => "badargs"
   | _ => "nofunc"
 end Driver.D_sg_uen
